@@ -215,12 +215,7 @@ func (c *Collection) readState(src io.Reader) (map[commit.Chunk]uint64, error) {
 func (c *Collection) chunks() int {
 	c.lock.Lock()
 	defer c.lock.Unlock()
-	if len(c.fill) == 0 {
-		return 0
-	}
-
-	max, _ := c.fill.Max()
-	return int(commit.ChunkAt(max) + 1)
+	return len(c.commits)
 }
 
 // readChunk acquires appropriate locks for a chunk and executes a read callback.
